@@ -50,3 +50,159 @@ class add_decoration:
         if len(self.decorations) != len(before) + 1:
             return False
         return conj(self.decorations[-1] is new_decoration, self.decorations[:-1] == before)
+
+
+# ------------------------------------------------------------------------------------------------ parse-tree shapes (A-antlr-shapes)
+class BarlineCtx:
+    """barline: EQUAL EQUAL? number? (a? b?) MINUS? barLineType? fermata? j? DOT?   (kern/kernSpineParser.g4)"""
+    def __init__(self, equals, number, minus, bar_type, fermata, tail):
+        self.equals, self.number, self.minus, self.bar_type, self.fermata_, self.tail = equals, number, minus, bar_type, fermata, tail
+
+    def EQUAL(self, i):
+        return Text('=') if i < self.equals else None
+
+    def barLineType(self):
+        return self.bar_type
+
+    def fermata(self):
+        return self.fermata_
+
+    def getText(self):
+        return ('=' * self.equals + self.number + self.minus + ('' if self.bar_type is None else self.bar_type.getText())
+                + ('' if self.fermata_ is None else self.fermata_.getText()) + self.tail)
+
+
+BAR_TYPE_TEXTS = ['||', '|!', '|!:', '|:', '!|:', ':|!', '=:|!', ':|!|:', ':||:', ':!:', ':|', '|', '!', '!!', '=']
+
+
+@contract(L + 'exitBarline', props=['C01', 'C03'])
+class exit_barline:
+    """C03 (barlines keep their type and lose only the measure number): the token is a BarToken whose text is the '=' signs (at most
+    two), the bar type and the fermata of the cell, in this order; the measure number, the a/b letters and the hidden mark are not part
+    of it; the token is flagged hidden iff the cell has the hidden mark '-'."""
+    assumes = (A_SHAPES,)
+
+    def inputs(g):
+        bar_type = g.choice('bar_type', [None] + BAR_TYPE_TEXTS)
+        fermata = g.choice('fermata', [None, ';'])
+        number = g.str_sym('number', ['', '1', '27', '3a', '12b'])         # any text without the hidden mark
+        g.assume(not ('-' in number))
+        ctx = BarlineCtx(g.choice('equals', [1, 2]), number, g.choice('minus', ['', '-']),
+                         None if bar_type is None else Text(bar_type), None if fermata is None else Text(fermata), g.choice('tail', ['', 'j', '.']))
+        return {'self': mk_listener(g, []), 'ctx': ctx}
+
+    def modifies_objs(self):
+        return [self]
+
+    def post_type_kept_number_lost(self, ctx):
+        want = ('==' if ctx.equals == 2 else '=') + ('' if ctx.bar_type is None else ctx.bar_type.text) + ('' if ctx.fermata_ is None else ctx.fermata_.text)
+        return conj(type(self.token).__name__ == 'BarToken', self.token.encoding == want, self.token.category == TokenCategory.BARLINES)
+
+    def post_hidden_flag(self, ctx):
+        return self.token.hidden == (ctx.minus == '-')
+
+
+class DurationCtx:
+    """duration: modernDuration augmentationDot* (graceNote | appoggiatura)?"""
+    def __init__(self, modern, dots, grace, app):
+        self.modern, self.dots, self.grace, self.app = modern, dots, grace, app
+
+    def modernDuration(self):
+        return self.modern
+
+    def augmentationDot(self):
+        return self.dots
+
+    def graceNote(self):
+        return self.grace
+
+    def appoggiatura(self):
+        return self.app
+
+
+@contract(L + 'exitDuration', props=['C01', 'C03'])
+class exit_duration:
+    """C03 (every note or rest keeps its duration marks): the duration sub-tokens are the figure, one '.' per augmentation dot, then the
+    grace or appoggiatura mark of the cell, all of category DURATION, in this order.  Domain: 0..4 augmentation dots (the loop over the
+    dots is unrolled, it has no invariant; the grammar allows any number)."""
+    assumes = (A_SHAPES, 'domain: at most 4 augmentation dots per duration (loop unrolled)')
+
+    def inputs(g):
+        tail = g.choice('tail', [None, 'q', 'qq', 'p', 'P'])
+        ndots = g.choice('dots', [0, 1, 2, 3, 4])
+        ctx = DurationCtx(Text(g.str_sym('figure', ['4', '16', '3%2', '0'])), [Text('.') for _ in range(ndots)],
+                          None if tail is None or tail[0] != 'q' else Text(tail), None if tail is None or tail[0] == 'q' else Text(tail))
+        return {'self': mk_listener(g, []), 'ctx': ctx}
+
+    def modifies_objs(self):
+        return [self]
+
+    def post_marks_in_order(self, ctx):
+        got = [s.encoding for s in self.duration_subtokens]
+        want = [ctx.modern.text] + ['.' for d in ctx.dots] + ([] if ctx.grace is None else [ctx.grace.text]) + ([] if ctx.app is None else [ctx.app.text])
+        return got == want
+
+    def post_all_duration(self):
+        return len([s for s in self.duration_subtokens if s.category != TokenCategory.DURATION]) == 0
+
+
+class NoteCtx:
+    """note / rest / chord context: its text and, for a note, the optional alteration"""
+    def __init__(self, text, alteration):
+        self.text, self.alteration_ = text, alteration
+
+    def getText(self):
+        return self.text
+
+    def alteration(self):
+        return self.alteration_
+
+
+def mk_busy_listener(g):
+    """a listener in the middle of a cell: duration marks, pitch and decorations collected so far"""
+    durs = g.mlist('durs', lambda e: e.new(Subtoken, {'encoding': e.str_sym('encoding'), 'category': TokenCategory.DURATION}, None))
+    decos = mk_decoration_list(g)
+    in_chord = g.bool('in_chord')
+    lst = g.new(BaseANTLRSpineParserListener, {'token': None, 'first_chord_element': None, 'chord_tokens': [] if in_chord else None,
+                                               'duration_subtokens': durs,
+                                               'diatonic_pitch_and_octave_subtoken': g.new(Subtoken, {'encoding': g.str_sym('pitch', ['c', 'GG', 'eee']), 'category': TokenCategory.PITCH}, None),
+                                               'accidental_subtoken': None, 'decorations': decos, 'in_chord': in_chord,
+                                               'measure_start_rows': [], 'last_bounding_box': None}, ())
+    return lst
+
+
+def built_note(self):
+    """the note / rest the listener has just built: the token of the cell, or the last note of the chord being read"""
+    return self.chord_tokens[-1] if self.in_chord else self.token
+
+
+@contract(L + 'exitNote', props=['C01', 'C03'])
+class exit_note:
+    """C03 (a note keeps its duration marks, pitch letters, accidental and signifiers): the note's pitch-duration sub-tokens are the
+    collected duration marks, the pitch letters and the alteration of the cell (if any), in this order; its decorations are the
+    collected ones; its text is the cell's.  In a chord the note is added to the chord's notes, otherwise it is the cell's token."""
+    assumes = (A_SHAPES,)
+
+    def inputs(g):
+        alt = g.choice('alt', [None, '#', '--', 'n', '#X', '-y'])
+        return {'self': mk_busy_listener(g), 'ctx': NoteCtx(g.str_sym('text', ['4c#L', '8GG']), None if alt is None else Text(alt))}
+
+    def modifies_objs(self):
+        return [self, self.chord_tokens]
+
+    def post_sub_tokens(self, ctx, old):
+        n = built_note(self)
+        pd = n.pitch_duration_subtokens
+        if len(pd) != len(self.duration_subtokens) + (1 if ctx.alteration_ is None else 2):
+            return False
+        if ctx.alteration_ is None:
+            parts_ok = conj(pd[:-1] == self.duration_subtokens, pd[-1] is self.diatonic_pitch_and_octave_subtoken)
+        else:
+            parts_ok = conj(pd[:-2] == self.duration_subtokens, pd[-2] is self.diatonic_pitch_and_octave_subtoken,
+                            pd[-1].encoding == ctx.alteration_.text, pd[-1].category == TokenCategory.ALTERATION)
+        return conj(type(n).__name__ == 'NoteRestToken', n.encoding == ctx.text, parts_ok, n.decoration_subtokens is self.decorations)
+
+    def post_placed(self, old):
+        if self.in_chord:
+            return conj(self.token is None, len(self.chord_tokens) == 1)
+        return self.chord_tokens is None
